@@ -44,7 +44,7 @@ Definition run_path (els : list element) (chans : list chan_in) : string :=
 
 (* RamanSolver._create_lumped_losses(z, lumped, z_lumped): z:v,z:v,... *)
 Definition run_merge (zl : list (Q * Q)) (z : list Q) : string :=
-  join "," (map (fun kv => append (qs (fst kv)) (append ":" (qs (snd kv)))) (merge_grid 1 zl z)).
+  join "," (map (fun kv => append (qs (fst kv)) (append ":" (qs (snd kv)))) (merge_grid Qmult 1 zl z)).
 
 (* calculate_unidirectional_stimulated_raman_scattering, method numerical, on an already merged grid:
    final powers *)
@@ -52,5 +52,5 @@ Definition run_euler (alpha : list Q) (cr : list (list Q)) (grid : list (Q * Q))
   join "," (map qs (euler alpha cr grid p)).
 (* zero-power loss profile at the fibre end on the solver grid built as the code builds it *)
 Definition run_euler_zero (alpha : list Q) (zl : list (Q * Q)) (fuel : nat) (step L : Q) : string :=
-  let grid := merge_grid 1 zl (solver_grid fuel step L) in
+  let grid := merge_grid Qmult 1 zl (solver_grid fuel step L) in
   join "," (map (fun a => qs (grid_factor a grid)) alpha).
